@@ -19,8 +19,8 @@
      - work_not_lost : forall ..., chainwork (tip after ActivateBestChain on the recovered node) >=
          chainwork (tip of the last completed flush)   [observed by the driver in reorg-by-work scenarios]
      - the power-loss semantics over SEVERAL flushes (a prefix of the concatenated batch sequences is
-       durable): it reduces to the single-flush statement for the flush the prefix ends in, since every
-       earlier flush is then complete; the reduction is not formalised
+       durable) reduces to the single-flush statement for the flush the prefix ends in
+       (C16_prefix_over_several_flushes); the composed statement over a whole run of flushes is not stated
      - the pre-0.15 undo format path of ApplyTxInUndo (undo.nHeight == 0), LevelDB's own log recovery, the
        file system's ordering guarantees, torn writes, pruning of block files needed by the replay. *)
 From Coq Require Import List NArith Bool Arith.
@@ -119,6 +119,17 @@ Theorem C16_data_precedes_coins : forall prune n pre i post,
   In StepBlockFiles pre /\ In StepBlockIndex pre.
 Proof. exact data_precedes_coins. Qed.
 Print Assumptions C16_data_precedes_coins.
+
+(* Several flushes in a row (batches are not synced individually, so a power loss may drop a suffix that spans
+   flushes): a durable prefix of the concatenated batch sequences is a prefix of the first flush, or the complete
+   first flush followed by a prefix of the remaining ones -- every such state is a crash point of ONE flush
+   starting from a completed one, to which C16_replay_recovers_partial applies. *)
+Theorem C16_prefix_over_several_flushes : forall bs1 bs2 m k,
+  crash_after k (bs1 ++ bs2) m =
+  if Nat.leb k (length bs1) then crash_after k bs1 m
+  else crash_after (k - length bs1) bs2 (apply_batches bs1 m).
+Proof. exact crash_after_app. Qed.
+Print Assumptions C16_prefix_over_several_flushes.
 
 (* ---------------------------------------------------------------------------------------------- *)
 (* A concrete instance: base = two blocks; the old branch A1, A2 and the new branch B1, B2, B3 fork at
